@@ -1,5 +1,7 @@
 import TorrentVerif.Proofs.Listing
 import TorrentVerif.Proofs.CreatorsInfo
+import TorrentVerif.Proofs.Spelling
+import TorrentVerif.Proofs.Utf8
 /-
   C08 — the info dictionary depends only on the payload, not on where the payload lives or in
   which order the operating system enumerates directories.  This file covers the listing part:
@@ -190,5 +192,157 @@ theorem setDate_only_date (date' : Int) (kvs : Dict) :
 
 example : (Spec.setDate 5 (.dict [(K.announce, .str [97]), (K.creationDate, .int 1), (K.info, .dict [])]))
     = .dict [(K.announce, .str [97]), (K.creationDate, .int 5), (K.info, .dict [])] := by decide
+
+end TorrentVerif.Props.C08
+
+/-! ### the recorded name does not depend on how the content path is spelled -/
+namespace TorrentVerif.Props.C08
+open TorrentVerif Rebuild PosixPath
+
+/-- In any working directory (`cwd` absolute — `os.getcwd()` always is, and is normalised too,
+    which is not even needed), every spelling `t` obtained from a spelling `s` (relative or
+    absolute; the root and the empty spelling included) by finitely many of the rewrites
+    insert `./` before a component, double a `/`, append `/`, append `/.`, insert `x/../` before
+    a component, prefix `./` records the same `info.name` as `s`:
+    `basename(abspath(t)) = basename(abspath(s))`. -/
+theorem name_of_spelling (cwd s t : Bytes) (hc : cwd.head? = some 47)
+    (h : Spec.SameSpelling s t) : Impl.torrentName cwd t = Impl.torrentName cwd s := by
+  rw [Impl.torrentName_eq cwd t hc, Impl.torrentName_eq cwd s hc, run_join cwd t hc,
+    run_join cwd s hc, stackOf_same _ s t h]
+
+/-- met by: in `/srv/data`, the spelling `./pay//q/../load/.` comes from `pay/load` by four
+    rewrites (insert `q/../` before `load`, double the first `/`, prefix `./`, append `/.`) and
+    both record the name `load` -/
+example : Impl.torrentName (render exCwd) [46, 47, 112, 97, 121, 47, 47, 113, 47, 46, 46, 47, 108, 111, 97, 100, 47, 46]
+      = Impl.torrentName (render exCwd) [112, 97, 121, 47, 108, 111, 97, 100] ∧
+    Impl.torrentName (render exCwd) [112, 97, 121, 47, 108, 111, 97, 100] = [108, 111, 97, 100] := by
+  refine ⟨name_of_spelling _ _ _ (by decide) ?_, by decide⟩
+  exact ((((Spec.SameSpelling.refl _).step
+    (Spec.SpellingStep.xDotDot [112, 97, 121, 47] [108, 111, 97, 100] [113] (by decide)
+      (Or.inr (by decide)))).step
+    (Spec.SpellingStep.dblSep [112, 97, 121] [113, 47, 46, 46, 47, 108, 111, 97, 100])).step
+    (Spec.SpellingStep.prefixDot _ (by decide))).step
+    (Spec.SpellingStep.trailDot _ (by decide))
+
+/-- The recorded name is the last component of the normalised absolute path: in a working
+    directory `cwd` (absolute) the string `abspath(s) = normpath(join(cwd, s))` is `/` (or `//`,
+    the POSIX special case that `normpath` keeps) followed by the `/`-joined list `q` of its
+    non-empty components, all of them plain (non-empty, not `.`/`..`, no `/`), and the name is
+    the last element of `q` — or the empty string when `q` is empty, i.e. for the filesystem
+    root (`basename("/") = ""` in Python as well). -/
+theorem name_is_last_component (cwd s : Bytes) (hc : cwd.head? = some 47) :
+    let q := comps (abspathIn cwd s)
+    Spec.CleanPath q ∧ (abspathIn cwd s = render q ∨ abspathIn cwd s = 47 :: render q) ∧
+    (q.getLast? = some (Impl.torrentName cwd s) ∨ (q = [] ∧ Impl.torrentName cwd s = [])) := by
+  have hj := join_head cwd s hc
+  obtain ⟨hq, hn⟩ := normpath_run _ hj
+  have hk := initialSlashes_abs _ hj
+  have hcomps : comps (abspathIn cwd s) = (run [] (join cwd s)).reverse := by
+    unfold abspathIn; rw [hn]; exact (comps_slashes _ _ hq).1
+  simp only [hcomps]
+  refine ⟨hq, ?_, ?_⟩
+  · unfold abspathIn
+    rw [hn]
+    rcases hk with h | h <;> rw [h]
+    · left; rfl
+    · right; rfl
+  · rw [Impl.torrentName_eq cwd s hc, List.getLast?_reverse]
+    cases run [] (join cwd s) with
+    | nil => right; simp
+    | cons a r => left; simp
+
+/-- met by: `../data/./x//` in `/srv/data` is `/srv/data/x`, name `x` -/
+example : abspathIn (render exCwd) [46, 46, 47, 100, 97, 116, 97, 47, 46, 47, 120, 47, 47]
+      = render (exCwd ++ [[120]]) ∧
+    Impl.torrentName (render exCwd) [46, 46, 47, 100, 97, 116, 97, 47, 46, 47, 120, 47, 47] = [120] := by
+  decide
+
+/-- Relative and absolute spellings agree: the name recorded for `s` in the working directory
+    `cwd` is the name recorded for the absolute spelling `join(cwd, s)` in any working
+    directory `cwd'` whatever (in particular `/`). -/
+theorem name_relative_absolute (cwd cwd' s : Bytes) (hc : cwd.head? = some 47) :
+    Impl.torrentName cwd s = Impl.torrentName cwd' (join cwd s) := by
+  unfold Impl.torrentName abspathIn
+  rw [join_abs cwd' _ (join_head cwd s hc)]
+
+/-- met by: `x/y` in `/srv/data` against `/srv/data/x/y` in `/` -/
+example : Impl.torrentName (render exCwd) [120, 47, 121]
+    = Impl.torrentName [47] [47, 115, 114, 118, 47, 100, 97, 116, 97, 47, 120, 47, 121] :=
+  name_relative_absolute _ [47] _ (by decide)
+
+/-- What the name is for the plain spellings: in the working directory `/p₁/…/pₘ`, the relative
+    spelling `r₁/…/rₙ` (plain components; `n = 0` is the empty spelling) and, since the repair
+    of `torrentfile create .`, the spelling `.` record the last component of `/p₁/…/pₘ/r₁/…/rₙ`
+    resp. of the working directory itself, provided that location is not the filesystem root.
+    Together with `name_of_spelling` this gives the name for every rewritten spelling. -/
+theorem name_of_plain_spelling (p r : Path) (hp : Spec.CleanPath p) (hr : Spec.CleanPath r) :
+    (p ++ r ≠ [] → (p ++ r).getLast? = some (Impl.torrentName (render p) (joinSep r))) ∧
+    (p ≠ [] → p.getLast? = some (Impl.torrentName (render p) [46])) := by
+  rw [Impl.torrentName_canonical p r hp hr, Impl.torrentName_dot p hp]
+  constructor
+  · intro h
+    cases hl : (p ++ r).getLast? with
+    | none => exact absurd (List.getLast?_eq_none_iff.mp hl) h
+    | some x => rfl
+  · intro h
+    cases hl : p.getLast? with
+    | none => exact absurd (List.getLast?_eq_none_iff.mp hl) h
+    | some x => rfl
+
+/-- met by: `.` and `x/y` in `/srv/data` -/
+example : Impl.torrentName (render exCwd) [46] = [100, 97, 116, 97] ∧
+    Impl.torrentName (render exCwd) (joinSep [[120], [121]]) = [121] := by
+  have h := name_of_plain_spelling exCwd [[120], [121]] (by decide) (by decide)
+  have h1 := h.1 (by decide)
+  have h2 := h.2 (by decide)
+  simp only [exCwd, List.cons_append, List.nil_append, List.getLast?_cons_cons, List.getLast?_singleton,
+    Option.some.injEq] at h1 h2
+  exact ⟨h2.symm, h1.symm⟩
+
+end TorrentVerif.Props.C08
+
+/-! ### sorting `str` and sorting UTF-8 bytes is the same -/
+namespace TorrentVerif.Props.C08
+open TorrentVerif
+
+/-- UTF-8 preserves order: for strings `a`, `b` given as lists of Unicode scalar values,
+    comparing the UTF-8 encodings byte by byte (`Listing.leBytes`, the order the model sorts
+    names in) gives the same answer as comparing the code point lists (`Utf8.leCode`, Python's
+    `<=` on `str`, the order `sorted(os.listdir(…))` and `sorted(filelist)` use). -/
+theorem utf8_order_preserving (a b : List Nat) (ha : ∀ c ∈ a, Utf8.Scalar c)
+    (hb : ∀ c ∈ b, Utf8.Scalar c) :
+    Listing.leBytes (Utf8.encodeStr a) (Utf8.encodeStr b) = Utf8.leCode a b :=
+  Utf8.leBytes_encodeStr a b (fun c hc => Utf8.scalar_lt (ha c hc))
+    (fun c hc => Utf8.scalar_lt (hb c hc))
+
+/-- met by: `"z\uFFFD" < "z\U00010000"` (3-byte against 4-byte encoding; in UTF-16 code
+    units the order would be the opposite), and `"é" > "z"` -/
+example : Listing.leBytes (Utf8.encodeStr [122, 0xFFFD]) (Utf8.encodeStr [122, 0x10000]) = true ∧
+    Utf8.leCode [122, 0xFFFD] [122, 0x10000] = true ∧
+    Listing.leBytes (Utf8.encodeStr [0xE9]) (Utf8.encodeStr [122]) = false ∧
+    Utf8.encodeStr [122, 0xFFFD] = [122, 0xEF, 0xBF, 0xBD] := by decide
+
+/-- Hence sorting a list of names as Python strings and then encoding them gives the same
+    list as encoding them and sorting the byte strings. -/
+theorem utf8_sort_commutes (l : List (List Nat)) (hl : ∀ a ∈ l, ∀ c ∈ a, Utf8.Scalar c) :
+    (l.mergeSort Utf8.leCode).map Utf8.encodeStr
+      = (l.map Utf8.encodeStr).mergeSort Listing.leBytes :=
+  List.map_mergeSort (fun a ha b hb => (utf8_order_preserving a b (hl a ha) (hl b hb)).symm)
+
+/-- met by: the names `é`, `z`, `U+10000`, `U+FFFD`, `a` -/
+example : ([[0xE9], [122], [0x10000], [0xFFFD], [97]].mergeSort Utf8.leCode).map Utf8.encodeStr
+    = ([[0xE9], [122], [0x10000], [0xFFFD], [97]].map Utf8.encodeStr).mergeSort Listing.leBytes :=
+  utf8_sort_commutes _ (by decide)
+
+/-- The encoding loses nothing: strings of scalar values with equal UTF-8 encodings are equal
+    (so sibling names that are distinct as `str` are distinct as byte strings). -/
+theorem utf8_injective (a b : List Nat) (ha : ∀ c ∈ a, Utf8.Scalar c)
+    (hb : ∀ c ∈ b, Utf8.Scalar c) (h : Utf8.encodeStr a = Utf8.encodeStr b) : a = b := by
+  apply Utf8.leCode_antisymm
+  · rw [← utf8_order_preserving a b ha hb, h]; exact Listing.leBytes_refl _
+  · rw [← utf8_order_preserving b a hb ha, h]; exact Listing.leBytes_refl _
+
+/-- met by: the hypotheses hold for a string with 1-, 2-, 3- and 4-byte characters -/
+example : ∀ c ∈ [0x41, 0xE9, 0x20AC, 0x1F600], Utf8.Scalar c := by decide
 
 end TorrentVerif.Props.C08
